@@ -11,7 +11,7 @@ from common import hx
 FILES = ["gen/Gen_tensors.v", "Model_voigt.v", "Model_decomp.v", "Proofs_tensors_alg.v"] + \
         [f"Proofs_tensors_rot{i}.v" for i in range(9)] + \
         ["Proofs_tensors_rot.v", "Proofs_tensors_maps.v", "Proofs_tensors_proj.v", "Inst_tensors.v",
-         "Proofs_decomp.v", "Proofs_decomp2.v", "Entry_tensors.v", "Extract_tensors.v"]
+         "Proofs_decomp.v", "Proofs_decomp2.v", "Proofs_decomp3.v", "Entry_tensors.v", "Extract_tensors.v"]
 PROP = "Properties/C12.v"
 KEYS = ["bulk_modulus", "shear_modulus", "percent_anisotropy", "percent_hexagonal", "percent_tetragonal",
         "percent_orthorhombic", "percent_monoclinic", "percent_triclinic"]
@@ -193,9 +193,11 @@ def run(chk):
         "hand-written Model_decomp.elasticity_components1 (K, G, isotropic vector, percent anisotropy, eigenvector pairing with the signed-index trick, "
         "three cyclic permutations with strict-< selection, nested projections); tied by this differential run on the recorded eigh outputs",
         "scipy.linalg.eigh is an oracle: orthonormal columns, S v = lambda v, ascending eigenvalues are residual-checked on every call",
-        "PROVED now (Proofs_decomp2): sccs_is_R, mono = tric = 0 and 'reported axis = +- R e_k' for rotated orthorhombic tensors with distinct principal values. "
-        "OPEN (carried by the run-time comparison): the axis index k is the same in the rotated and the unrotated run (hex_axis_corotates_partial); "
-        "frame independence of all percentages for non-orthorhombic tensors",
+        "PROVED (Proofs_decomp2/3), for rotated orthorhombic tensors with distinct principal values of both contractions: sccs_is_R, mono = tric = 0, "
+        "the candidate distances depend only on the axis put third (candidate_distance), the strict-< loop selects the strict minimum, hence "
+        "hex_axis_corotates (axis of the rotated run = +- R . axis of the unrotated run) and equality of all eight reported numbers in both frames "
+        "under the property's no-tie exclusion (strict minimum among the three candidate distances of the unrotated tensor); the sum rule on the whole function. "
+        "OPEN (carried by the run-time comparison): frame independence of all percentages for non-orthorhombic tensors",
     ]
     chk.cov["rule"] = ("tensors = the two built-in single-crystal tensors, random positive-definite orthorhombic tensors, Voigt averages of random 2-11 grain textures; each in the "
                        "unrotated and in a Haar-rotated frame; implementation vs extracted model on the recorded eigh outputs at 1e-9 (+1e-7 abs on percentages); "
